@@ -230,6 +230,7 @@ Proof. exact thread_sleeps_last_good_rate. Qed.
 Print Assumptions C15_thread_sleeps_last_good_rate.
 
 (* ------------------------------ non-vacuity ------------------------------ *)
+From L4 Require Model.FlushPass Proofs.FlushPass.
 Local Open Scope N_scope.
 Definition exA : tcfg :=
   (1, {| c_appenders := [[97]; [98]]; c_root_level := 5; c_root_apps := [[97]; [98]]; c_loggers := [] |}).
@@ -300,3 +301,33 @@ Proof. vm_compute. repeat split; try congruence. eexists. split; reflexivity. Qe
 Example C15_example_changed :
   changed N (init_loop N 1 [1] 10 30 0) 2 [2] /\ bad N ex_parse (File 4 [9]).
 Proof. split; [split; cbn; congruence|reflexivity]. Qed.
+
+(* ---- <Logger as Log>::flush under reconfiguration (Model/FlushPass.v) ---- *)
+Module FPm := L4.Model.FlushPass.
+Module FPp := L4.Proofs.FlushPass.
+
+(* At every moment of every schedule of the flusher's micro-steps against stores by other threads, and
+   whatever the appenders being flushed install themselves: the pass has done nothing yet, or it has
+   loaded ONE snapshot and flushed that snapshot's first i appenders in table order, or - finished -
+   all of them. *)
+Theorem C15_flush_pass_works_on_one_snapshot :
+  forall (reent : FPm.reent_t) (c0 : FPm.cell) (ms : list FPm.move),
+    let s := FPm.run reent ms (FPm.init c0) in
+    match FPm.fl s with
+    | FPm.FIdle => FPm.trace s = []
+    | FPm.FPass snap i => (i <= snd snap)%nat /\ FPm.trace s = FPm.FLoad snap :: FPm.flushes (fst snap) i
+    | FPm.FDone snap => FPm.trace s = FPm.FLoad snap :: FPm.flushes (fst snap) (snd snap) ++ [FPm.FRet]
+    end.
+Proof. exact FPp.pass_is_over_one_snapshot. Qed.
+Print Assumptions C15_flush_pass_works_on_one_snapshot.
+
+(* A finished pass flushed every appender of its snapshot exactly once and no appender of any other
+   configuration. *)
+Theorem C15_finished_flush_pass :
+  forall (reent : FPm.reent_t) (c0 : FPm.cell) (ms : list FPm.move) (snap : FPm.cell),
+    FPm.fl (FPm.run reent ms (FPm.init c0)) = FPm.FDone snap ->
+    filter FPp.is_flush (FPm.trace (FPm.run reent ms (FPm.init c0))) = FPm.flushes (fst snap) (snd snap) /\
+    NoDup (FPm.flushes (fst snap) (snd snap)) /\
+    (forall tag i, In (FPm.FFlush tag i) (FPm.trace (FPm.run reent ms (FPm.init c0))) <-> tag = fst snap /\ (i < snd snap)%nat).
+Proof. exact FPp.finished_pass. Qed.
+Print Assumptions C15_finished_flush_pass.
